@@ -249,6 +249,49 @@ def analyse(prog, lines):
                 if hv and hv[0] == "G" and hv[1]:
                     if name == "ginto" and addr is not None and addr != hv[1]:
                         findings.append(("C10", "guard %d denoted %d at creation but into_inner gave %d" % (h, hv[1], addr)))
+    # C11: a node is never re-claimed while a writer is walking it (the writer read the node's control
+    # word and has not moved on to another node or finished its operation)
+    import re as _re
+    own = {}            # tid -> node it holds
+    inside = {}         # tid -> node whose control word it read as a writer (not its own)
+    pending_claim = {}  # tid -> node taken out of cooldown, writers not yet checked
+    for e in evs:
+        if e.kind == "RET" or e.kind == "EXIT":
+            inside.pop(e.tid, None)
+            continue
+        if e.kind != "ACC" or len(e.f) < 7:
+            continue
+        loc, op, old, new, ok = e.f[0], e.f[1], e.f[4], e.f[5], e.f[6]
+        m = _re.match(r"(IU|CT|WR|AD|OF|SL)(\d+)", loc)
+        t = e.tid
+        if loc == "HEAD" and op in ("cas", "casw") and ok == "1":
+            own[t] = int(new) - 1
+            continue
+        if not m:
+            continue
+        kind, w = m.group(1), int(m.group(2))
+        if kind == "IU" and op == "cas" and ok == "1" and old == "2" and new == "1":
+            pending_claim[t] = w
+        elif kind == "IU" and op == "cas" and ok == "1" and old == "0":
+            own[t] = w
+        elif kind == "IU" and op == "store" and new == "2":
+            pending_claim.pop(t, None)
+        elif kind == "IU" and op == "swap" and new == "2":
+            if own.get(t) == w:
+                own.pop(t, None)
+        elif kind == "WR" and op == "load" and pending_claim.get(t) == w:
+            if old == "0":
+                own[t] = w
+                pending_claim.pop(t, None)
+                for t2, w2 in inside.items():
+                    if w2 == w and t2 != t:
+                        findings.append(("C11", "thread %d claimed node %d out of cooldown while thread %d, a writer that had read the node's control word, was still walking it (trace line %d)" % (t, w, t2, e.i + 1)))
+        if kind == "CT" and op == "load" and own.get(t) != w:
+            inside[t] = w
+        elif t in inside and w != inside[t] and w != own.get(t):
+            inside.pop(t, None)
+        elif t in inside and kind == "SL" and loc.endswith(".8") and w == inside[t]:
+            inside.pop(t, None)      # the helping slot is the last thing a walk touches in a node
     # quiescent end state: the count equation of C02
     fin = [e for e in evs if e.kind == "FINAL"]
     metrics = {"max_load_steps": max_load_steps, "complete": complete}
